@@ -17,7 +17,7 @@ CLAIMS = {
 CLAIMS.update({
     "C01": dict(
         technique="custom AST lint over tensorly/base.py: def-use closure of the tensor argument (layout-only), slot-wise AST comparison of forward/inverse pairs, keyword-forwarding check",
-        text="Decides four structural clauses: (AXIS-LIVE) every ordering parameter (mode, row_modes, column_modes, skip_begin) reaches an axis argument of moveaxis/transpose on every return path or selects it by a test, so no path can ignore a requested ordering; (LAYOUT-ONLY) in all nine layout functions the tensor reaches every return only through reshape/moveaxis/transpose and sibling layout functions, so no entry can be dropped, duplicated, rounded or re-typed for any shape/dtype; (INVERSE-MIRROR) fold/partial_fold undo exactly the axis move and shape bookkeeping of unfold/partial_unfold; (FORWARD) the vec helpers forward skip_begin/skip_end with mode=0. (SHAPE-BY-POSITION) shape-derived lists are edited by position, never by value (sizes are not unique). It does NOT decide that the permutation is the documented one (index arithmetic).",
+        text="Decides four structural clauses: (AXIS-LIVE) every ordering parameter (mode, row_modes, column_modes, skip_begin) reaches an axis argument of moveaxis/transpose on every return path or selects it by a test, so no path can ignore a requested ordering; (LAYOUT-ONLY) in all nine layout functions the tensor reaches every return only through reshape/moveaxis/transpose and sibling layout functions, so no entry can be dropped, duplicated, rounded or re-typed for any shape/dtype; (INVERSE-MIRROR) fold/partial_fold undo exactly the axis move and shape bookkeeping of unfold/partial_unfold; (FORWARD) the vec helpers forward skip_begin/skip_end with mode=0. (SHAPE-BY-POSITION) shape-derived lists are edited by position, never by value (sizes are not unique); (SKIP-ARITY) the reshape target of partial_unfold has exactly skip_begin leading and skip_end trailing single-axis sizes around the unfolded block (symbolic list lengths as linear forms, every configuration). It does NOT decide that the permutation is the documented one (index arithmetic).",
         note="Trusted: backend reshape/moveaxis/transpose are bijections on entries and keep the dtype (NumPy semantics).",
         design="DESIGN.md §3 C01",
     ),
@@ -29,7 +29,7 @@ CLAIMS.update({
     ),
     "C03": dict(
         technique="must-pass-through check on constructor CFGs (branch-consistent path exploration) + delegation-shape lint for views and wrapper methods over resolved callees",
-        text="Decides: (REJECT-TWO-SIDED) every rejecting test of the six validators is an (in)equality/count test or compares a quantity that is non-negative by construction with its tolerance, so no direction of deviation is accepted; (HOMOGENEITY) every value returned by cp_to_tensor/_unfolded/_vec, cp_norm, tucker_to_tensor/_unfolded/_vec, tt_to_tensor/_vec, tr_to_tensor and parafac2_to_slice has the homogeneity degree of the defining contraction (degree 1 in weights/core, in every factor, in the mask when given) for weights present and absent on every return path -- a dimensional analysis that is exact for 'applied twice / forgotten' errors and blind to wrong indices or coefficients; every wrapper constructor (CP, Tucker, TT, TR, TT-matrix, PARAFAC2) validates the unmodified operand on every path before storing state and takes shape/rank from the validator; every delegating view and wrapper method hands the unmodified operand and mode to the family's dense reconstruction and wraps it only in layout functions, so those views agree with the dense tensor by construction. It does NOT decide the index structure of the reconstructions (only their multilinearity degree).",
+        text="Decides: (NORM-DELEGATES) every `norm` method of a wrapper returns the family's factor-based norm of the wrapper or the norm of its own dense reconstruction; (REJECT-TWO-SIDED) every rejecting test of the six validators is an (in)equality/count test or compares a quantity that is non-negative by construction with its tolerance, so no direction of deviation is accepted; (HOMOGENEITY) every value returned by cp_to_tensor/_unfolded/_vec, cp_norm, tucker_to_tensor/_unfolded/_vec, tt_to_tensor/_vec, tr_to_tensor and parafac2_to_slice has the homogeneity degree of the defining contraction (degree 1 in weights/core, in every factor, in the mask when given) for weights present and absent on every return path -- a dimensional analysis that is exact for 'applied twice / forgotten' errors and blind to wrong indices or coefficients; every wrapper constructor (CP, Tucker, TT, TR, TT-matrix, PARAFAC2) validates the unmodified operand on every path before storing state and takes shape/rank from the validator; every delegating view and wrapper method hands the unmodified operand and mode to the family's dense reconstruction and wraps it only in layout functions, so those views agree with the dense tensor by construction. It does NOT decide the index structure of the reconstructions (only their multilinearity degree).",
         note="Trusted: layout functions are pure re-arrangements (C01); validators' individual checks are not examined.",
         design="DESIGN.md §3 C03",
     ),
@@ -71,7 +71,7 @@ CLAIMS.update({
 CLAIMS.update({
     "C06": dict(
         technique="branch-consistent path exploration over driver CFGs with a version/freshness relation (which derived value was computed from which model version), must-match-at-return check, plus AST lints for callback arity, relative unit, guarded sqrt and the last-mode pairing (sibling cross-check)",
-        text="Decides for the 12 iterative drivers (CP-ALS, randomised CP, multiplicative and HALS non-negative CP, constrained CP, HOOI, both non-negative Tucker variants, PARAFAC2, TR-ALS and its sampled variant, CMTF): on every branch-consistent path and across iterations each reported error (list append/store, callback argument) is defined and was computed from the current versions of all model variables, the last report before every return matches the returned model, callbacks always get (decomposition, error), reported values are quotients by the data norm (CMTF: documented squared form), square roots of differences are guarded by abs, and the MTTKRP shortcut is only used when the last mode is swept last. It does NOT decide the algebra of the error shortcuts.",
+        text="Decides for the 12 iterative drivers (CP-ALS, randomised CP, multiplicative and HALS non-negative CP, constrained CP, HOOI, both non-negative Tucker variants, PARAFAC2, TR-ALS and its sampled variant, CMTF): on every branch-consistent path and across iterations each reported error (list append/store, callback argument) is defined and was computed from the current versions of all model variables, the last report before every return matches the returned model, callbacks always get (decomposition, error), reported values are quotients by the data norm (CMTF: documented squared form), square roots of differences are guarded by abs, and the MTTKRP shortcut is only used when the last mode is swept last. It does NOT decide the algebra of the error shortcuts. (ELEMENT-VS-POSITION) the loop variable of a sweep over a filtered mode list is only compared with elements of that list, never with a position in it.",
         note="Trusted: the frozen driver table (model variables, error list, callback, data norm, representation-preserving calls); call results are taken as computed from their arguments; reading a local with no definition on a path ends that path (Python raises).",
         design="DESIGN.md §3 C06",
     ),
@@ -86,13 +86,13 @@ CLAIMS.update({
     ),
     "C14": dict(
         technique="loop-index provenance lint (sweep stores indexed only by the fixed-mode-filtered list) + path exploration under the rewriting options switched off + pure-move (no arithmetic / no copy-with-change) check of the fixed-factor flow",
-        text="Decides ONLY the fixed-modes clause: in parafac, non_negative_parafac, non_negative_parafac_hals, constrained_parafac and non_negative_tucker_hals every sweep store into the factor list is indexed by the variable of a loop over [m for m in range(ndim) if m not in fixed_modes] and, with normalize_factors/orthogonalise/linesearch off, nothing else re-binds the list; parafac's all-fixed shortcut wraps exactly the initialiser's outputs; tucker's fixed factors reach the result from init by moves only and are re-inserted at positions taken from a sorted sequence. The clause 'iteration starts from exactly the tensor the initialisation represents' (weight folding) is numeric and explicitly NOT decided.",
+        text="Decides ONLY the fixed-modes clause: in parafac, non_negative_parafac, non_negative_parafac_hals, constrained_parafac and non_negative_tucker_hals every sweep store into the factor list is indexed by the variable of a loop over [m for m in range(ndim) if m not in fixed_modes] and, with normalize_factors/orthogonalise/linesearch off, nothing else re-binds the list; parafac's all-fixed shortcut wraps exactly the initialiser's outputs; tucker's fixed factors reach the result from init by moves only and are re-inserted at positions taken from a sorted sequence. The clause 'iteration starts from exactly the tensor the initialisation represents' (weight folding) is numeric and explicitly NOT decided. (WEIGHTS-SEEN) PARAFAC2: along every branch-consistent path a call that receives the factor list without the weights is only reached when the weights were just reset to ones after being absorbed into a factor, so a warm start's weights are part of the model every consumer sees.",
         note="Trusted: frozen driver table; with normalisation / orthogonalisation / line search ON all factors are legitimately rewritten and the rule is silent.",
         design="DESIGN.md §3 C14",
     ),
     "C19": dict(
         technique="branch-consistent path exploration with the version relation of C06 over CPRegressor.fit / TuckerRegressor.fit (every exposure computed from the current factor versions) + delegation-shape lint of the exposures and of predict",
-        text="Decides for the CP and Tucker regressors: every attribute exposed by fit (weight_tensor_, cp_weight_/tucker_weight_, vec_W_) is derived, on every path (convergence break and iteration cap), from the same final factor state through the family's reconstruction of exactly the exposed pair, and predict reads only exposed attributes and contracts partial_tensor_to_vec(X) with one of them. The CP-PLSR clauses (scores, unit loadings, invariances) are numeric and NOT decided.",
+        text="Decides for the CP and Tucker regressors: every attribute exposed by fit (weight_tensor_, cp_weight_/tucker_weight_, vec_W_) is derived, on every path (convergence break and iteration cap), from the same final factor state through the family's reconstruction of exactly the exposed pair, and predict reads only exposed attributes and contracts partial_tensor_to_vec(X) with one of them. The CP-PLSR clauses (scores, unit loadings, invariances) are numeric and NOT decided. (STATS-FROM-FIT) CP_PLSR.predict / transform centre the query batch with the means stored by fit; no statistic of the query batch is computed, directly or through a helper default.",
         note="Trusted: C03 view agreement; paths where weight_tensor_ is never bound (n_iter_max=0) are outside the rule.",
         design="DESIGN.md §3 C19",
     ),
@@ -110,7 +110,7 @@ CLAIMS.update({
 CLAIMS.update({
     "C04": dict(
         technique="dimensional analysis by structural abstract interpretation (homogeneity degrees as linear forms in the number of factors, per-position list tracking, affine loop acceleration, path splitting at flag-dependent branches) + sign-parity and zero-sign lints",
-        text="PARTIAL claim; decides necessary conditions only. (DEGREE-CONSERVED) the object returned by cp_normalize, tucker_normalize, parafac2_normalise and cp_flip_sign represents a tensor with the same homogeneity degree in the weights/core, in every factor and in the projections as its input, and cp_mode_dot / tucker_mode_dot (matrix branch and contracted-vector branch) add exactly degree 1 in the operand -- for weights present and absent, on every return path and any number of factors; (SCALE-FREE) every factor returned by a normaliser has degree 0 in all inputs, the scale being carried by the weights/core alone; (SIGN-PARITY) in cp_flip_sign every sign vector enters the represented tensor an even number of times; (SIGN-NONZERO) a sign vector that multiplies a factor cannot vanish where the component does not; (LOST-REBIND) a transform that can return its operand itself never re-binds an unpacked component on a path to that return without storing it back. It does NOT decide that the represented tensors are equal (wrong index / column order conserve degree), the unit norm itself, cp_permute_factors' alignment, TT/TR rank padding, CP->PARAFAC2 conversion or the SVD compress/decompress round trip.",
+        text="PARTIAL claim; decides necessary conditions only. (DEGREE-CONSERVED) the object returned by cp_normalize, tucker_normalize, parafac2_normalise and cp_flip_sign represents a tensor with the same homogeneity degree in the weights/core, in every factor and in the projections as its input, and cp_mode_dot / tucker_mode_dot (matrix branch and contracted-vector branch) add exactly degree 1 in the operand -- for weights present and absent, on every return path and any number of factors; (SCALE-FREE) every factor returned by a normaliser has degree 0 in all inputs, the scale being carried by the weights/core alone; (SIGN-PARITY) in cp_flip_sign every sign vector enters the represented tensor an even number of times; (SIGN-NONZERO) a sign vector that multiplies a factor cannot vanish where the component does not; (PERM-SPACE, shared with C20) cp_permute_factors picks columns of the tensor the matching permutation's values refer to; (LOST-REBIND) a transform that can return its operand itself never re-binds an unpacked component on a path to that return without storing it back. It does NOT decide that the represented tensors are equal (wrong index / column order conserve degree), the unit norm itself, cp_permute_factors' alignment, TT/TR rank padding, CP->PARAFAC2 conversion or the SVD compress/decompress round trip.",
         note="Trusted: degree specification of dot / mode_dot / norm / reshape; where(x == 0, 1, x) is evaluated as x (generic case); cp_mode_dot / tucker_mode_dot analysed with copy=True. Found and repaired: cp_flip_sign annihilated components with a zero-mean column (fix commit in /repo, known_findings.json).",
         design="DESIGN.md §17",
     ),
@@ -119,7 +119,7 @@ CLAIMS.update({
 CLAIMS.update({
     "C07": dict(
         technique="dimensional analysis of the block updates by structural abstract interpretation of the whole driver (data tensor and initialiser output as symbols; first store per store site observed) + guard-dominance lint for line-search acceptance",
-        text="PARTIAL claim; decides two necessary conditions, not descent itself. (UPDATE-DEGREE) the value each least-squares block update stores into the model -- CP-ALS, HALS non-negative CP (HALS and unconstrained branch), TR-ALS (lstsq and normal equations), the CP and Tucker regressors' ALS (ridge 0), CMTF's matrix-side factor, HOOI -- has the homogeneity degree of the exact block minimiser (+1 in the data, -1 in every other block and in the weights): with any other degree, rescaling the other blocks makes the residual after the update exceed the residual before it, so the sweep increases the objective for some input. Catches weights/factors missing from or doubled in the Gram matrix or the right-hand side, Gram products over the wrong set of modes, a sub-chain one core short. (ACCEPT-GUARDED) a line-search extrapolation replaces the iterate (CP-ALS) or is returned (PARAFAC2) only in the true branch of `error(extrapolated) < recorded error`; (BLOCK-INDEPENDENT) the HALS NNLS row update is an exact coordinate minimisation: over an affine-form abstract domain (value = alpha*old_row + beta with rational-function coefficients) the stored row does not depend on the old row after cancellation, with and without sparsity / ridge coefficients. NOT decided: monotone descent, PARAFAC2's projection step, CMTF's coupled factor, conditioning.",
+        text="PARTIAL claim; decides two necessary conditions, not descent itself. (UPDATE-DEGREE) the value each least-squares block update stores into the model -- CP-ALS, HALS non-negative CP (HALS and unconstrained branch), TR-ALS (lstsq and normal equations), the CP and Tucker regressors' ALS (ridge 0), CMTF's matrix-side factor, HOOI -- has the homogeneity degree of the exact block minimiser (+1 in the data, -1 in every other block and in the weights): with any other degree, rescaling the other blocks makes the residual after the update exceed the residual before it, so the sweep increases the objective for some input. Catches weights/factors missing from or doubled in the Gram matrix or the right-hand side, Gram products over the wrong set of modes, a sub-chain one core short. (ACCEPT-GUARDED) a line-search extrapolation replaces the iterate (CP-ALS) or is returned (PARAFAC2) only in the true branch of `error(extrapolated) < recorded error`; (RIDGE-LIVE) in the CP / Tucker regressors' ridge ALS the system matrix of every least-squares solve depends on self.reg_W (through helper parameters and defaults), so all blocks minimise the same penalised objective; (BLOCK-INDEPENDENT) the HALS NNLS row update is an exact coordinate minimisation: over an affine-form abstract domain (value = alpha*old_row + beta with rational-function coefficients) the stored row does not depend on the old row after cancellation, with and without sparsity / ridge coefficients. NOT decided: monotone descent, PARAFAC2's projection step, CMTF's coupled factor, conditioning.",
         note="Trusted: degree specification of solve/lstsq (b - A), of the NNLS solvers (UtM - UtU), of svd (scale-free vectors) and of the tenalg primitives (C02); drivers analysed with ridge 0, no mask, no sparsity.",
         design="DESIGN.md §17",
     ),
@@ -128,7 +128,7 @@ CLAIMS.update({
 CLAIMS.update({
     "C13": dict(
         technique="dimensional (unit) analysis of the solver bodies by structural abstract interpretation: UtM, UtU, the l1 and ridge coefficients as units; every sum / difference / element store type-checked, every return compared with the unit of the exact solution",
-        text="PARTIAL claim; decides unit consistency only. (UNIT-CONSISTENT) in hals_nnls (cold and warm start, with and without l1 / ridge coefficients), fista (cold / warm, penalised), active_set_nnls (cold / warm) and admm (unconstrained branch and constrained iteration) no sum, difference or element store combines quantities of different units, and every returned solution has the unit UtM / UtU of the exact (penalised) least-squares solution. The solution of the NNLS problem is homogeneous of degree +1 in UtM and -1 in UtU; an update that mixes units is not invariant under rescaling the design, so its fixed point cannot be the KKT point for every input. Catches a Gram entry missing from the coordinate update, squared denominators, coefficients added on the wrong side, a step without / with a non-inverted Lipschitz constant, residuals without the Gram matrix. (BLOCK-INDEPENDENT) the HALS row update is the exact minimiser over its row: in an affine-form abstract domain the coefficient of the old row in the stored row is 0 after cancellation for every combination of the sparsity / ridge coefficients (the 'incremental' form of the function's own docstring keeps 2*ridge/(UtU[k,k]+2*ridge) of the old row: a damped step whose fixed point is not the KKT point of the ridge problem). NOT decided: KKT optimality of the numbers, convergence, active-set bookkeeping.",
+        text="PARTIAL claim; decides unit consistency only. (UNIT-CONSISTENT) in hals_nnls (cold and warm start, with and without l1 / ridge coefficients), fista (cold / warm, penalised), active_set_nnls (cold / warm) and admm (unconstrained branch and constrained iteration) no sum, difference or element store combines quantities of different units, and every returned solution has the unit UtM / UtU of the exact (penalised) least-squares solution. The solution of the NNLS problem is homogeneous of degree +1 in UtM and -1 in UtU; an update that mixes units is not invariant under rescaling the design, so its fixed point cannot be the KKT point for every input. Catches a Gram entry missing from the coordinate update, squared denominators, coefficients added on the wrong side, a step without / with a non-inverted Lipschitz constant, residuals without the Gram matrix. (MUST-SOLVE) every path to a return of active_set_nnls passes a solve of the passive-set system (iteration budget >= 1); (BLOCK-INDEPENDENT) the HALS row update is the exact minimiser over its row: in an affine-form abstract domain the coefficient of the old row in the stored row is 0 after cancellation for every combination of the sparsity / ridge coefficients (the 'incremental' form of the function's own docstring keeps 2*ridge/(UtU[k,k]+2*ridge) of the old row: a damped step whose fixed point is not the KKT point of the ridge problem). NOT decided: KKT optimality of the numbers, convergence, active-set bookkeeping.",
         note="Trusted: clamp at epsilon evaluated as identity; proximal_operator unit-preserving; solve / svd degree specification.",
         design="DESIGN.md §17",
     ),
@@ -137,13 +137,13 @@ CLAIMS.update({
 CLAIMS.update({
     "C12": dict(
         technique="dimensional (unit) analysis of the operator bodies by structural abstract interpretation: tensor and unit-carrying parameter as one unit, coefficients and counts as numbers",
-        text="PARTIAL claim; decides joint positive homogeneity only. (PROX-HOMOGENEOUS) in soft / singular-value thresholding, the l2 and squared-l2 prox, smoothness, simplex and l1-ball projection, hard and normalised sparsity, monotone (both directions) and unimodal regression and Procrustes, no sum, difference or element store combines quantities of different units and the result has the unit of the input (no unit for the normalising operators); (K-BY-RANK) hard_thresholding keeps exactly k entries: it selects by argsort rank against the count, never by magnitude against a cut-off magnitude. Every penalty offered is positively homogeneous or a squared norm with a dimensionless coefficient, so the exact prox satisfies prox(c v; c r) = c prox(v; r); an operator that is not jointly homogeneous cannot be the exact minimiser for every input and parameter. NOT decided: feasibility, optimality, idempotence, non-expansiveness, behaviour on negative inputs or inside the constraint set.",
+        text="PARTIAL claim; decides joint positive homogeneity only. (PROX-HOMOGENEOUS) in soft / singular-value thresholding, the l2 and squared-l2 prox, smoothness, simplex and l1-ball projection, hard and normalised sparsity, monotone (both directions) and unimodal regression and Procrustes, no sum, difference or element store combines quantities of different units and the result has the unit of the input (no unit for the normalising operators); (INVOLUTION-PAIR) a flip applied under a flag before the computation is undone afterwards with the same arguments; (K-BY-RANK) hard_thresholding keeps exactly k entries: it selects by argsort rank against the count, never by magnitude against a cut-off magnitude. Every penalty offered is positively homogeneous or a squared norm with a dimensionless coefficient, so the exact prox satisfies prox(c v; c r) = c prox(v; r); an operator that is not jointly homogeneous cannot be the exact minimiser for every input and parameter. NOT decided: feasibility, optimality, idempotence, non-expansiveness, behaviour on negative inputs or inside the constraint set.",
         note="Trusted: unit table of the parameters (thresholds and radii carry the data's unit; l2-square and smoothness coefficients dimensionless; sparsity levels are counts), confirmed against the documented prox problems; guards x + 1e-12 / x + eps are negligible by intent.",
         design="DESIGN.md §17",
     ),
     "C20": dict(
         technique="dimensional analysis of the metric bodies by structural abstract interpretation: the two factor sets / data arrays as independent units",
-        text="PARTIAL claim; decides the scale behaviour only. (SCALE-BEHAVIOUR) congruence_coefficient (with and without absolute values), correlation_index (all four methods), R2_score, correlation, reflective_correlation_coefficient and leverage_score_dist are homogeneous of degree 0 in each argument -- a necessary condition of their invariance under rescaling of either factor set; MSE / variance have degree 2, covariance degree (1, 1), RMSE / standard deviation degree 1, as their definitions require; no sum or difference inside them combines different units; (PERM-SPACE) index-space typing of the matching permutation: its direction is read from congruence_coefficient's source and cp_permute_factors picks columns of the tensor the permutation's values refer to, at the reference's positions. NOT decided: optimality of the matching over all permutations, the [0, 1] range, permutation invariance, the exact definitions.",
+        text="PARTIAL claim; decides the scale behaviour only. (SCALE-BEHAVIOUR) congruence_coefficient (with and without absolute values), correlation_index (all four methods), R2_score, correlation, reflective_correlation_coefficient and leverage_score_dist are homogeneous of degree 0 in each argument -- a necessary condition of their invariance under rescaling of either factor set; MSE / variance have degree 2, covariance degree (1, 1), RMSE / standard deviation degree 1, as their definitions require; no sum or difference inside them combines different units; (CONJ-LIVE) in the similarity metrics a conjugation is applied to an operand of the cross-product, never to the product directly under abs / norm; (PERM-SPACE) index-space typing of the matching permutation: its direction is read from congruence_coefficient's source and cp_permute_factors picks columns of the tensor the permutation's values refer to, at the reference's positions. NOT decided: optimality of the matching over all permutations, the [0, 1] range, permutation invariance, the exact definitions.",
         note="Trusted: one scale per factor matrix stands for per-column scales (the metrics normalise with axis=0 norms); svd degree specification for the leverage scores.",
         design="DESIGN.md §17",
     ),
@@ -152,7 +152,7 @@ CLAIMS.update({
 CLAIMS.update({
     "C05": dict(
         technique="dimensional analysis of the SVD methods by structural abstract interpretation (backend svd / eigh / qr by specification) + sign-pairing lint of svd_flip + dispatch-table agreement",
-        text="PARTIAL claim; decides three structural clauses. (SVD-SCALING) truncated_svd, symeig_svd, randomized_svd and svd_interface with each method (with, without and with V-based sign resolution) return singular vectors of degree 0 and singular values of degree 1 in the matrix and add no quantities of different degree on the way -- the SVD of c*A is (U, c*S, V), so this is necessary for orthonormal vectors and true singular values (catches a missing square root in the Gram route, un-normalised or doubly normalised vectors, a range finder that is not orthonormalised when the power iterations are switched off, vectors multiplied by the spectrum); (FLIP-PAIRED) in each branch of svd_flip the sign vector multiplies both U and V exactly once, so sign resolution cannot change the product; (DISPATCH-AGREE) the branch method == '<name>' selects the function of that name and SVD_FUNS lists exactly the dispatched names; (NONNEG-OPTION) by {non-negative, any} abstract interpretation, make_svd_non_negative returns two entrywise non-negative factors for signed data and arbitrary singular vectors under nndsvd and nndsvda, and svd_interface returns exactly that pair. NOT decided: the values of the triplets, orthonormality itself, ordering, optimal truncation error, the randomized method's accuracy, shapes beyond min(shape).",
+        text="PARTIAL claim; decides three structural clauses. (SVD-SCALING) truncated_svd, symeig_svd, randomized_svd and svd_interface with each method (with, without and with V-based sign resolution) return singular vectors of degree 0 and singular values of degree 1 in the matrix and add no quantities of different degree on the way -- the SVD of c*A is (U, c*S, V), so this is necessary for orthonormal vectors and true singular values (catches a missing square root in the Gram route, un-normalised or doubly normalised vectors, a range finder that is not orthonormalised when the power iterations are switched off, vectors multiplied by the spectrum); (FLIP-PAIRED) in each branch of svd_flip the sign vector multiplies both U and V exactly once, so sign resolution cannot change the product; (DISPATCH-AGREE) the branch method == '<name>' selects the function of that name and SVD_FUNS lists exactly the dispatched names; (DECIDING-ENTRY) in svd_flip the sign of each deciding vector is the sign of its largest-magnitude entry: the arg-max index is used as an index into its own axis, paired with an enumeration of the other axis and applied along the axis it was decided for, and no arithmetic combination of entries (which can vanish) is used; (NONNEG-OPTION) by {non-negative, any} abstract interpretation, make_svd_non_negative returns two entrywise non-negative factors for signed data and arbitrary singular vectors under nndsvd and nndsvda, and svd_interface returns exactly that pair. NOT decided: the values of the triplets, orthonormality itself, ordering, optimal truncation error, the randomized method's accuracy, shapes beyond min(shape).",
         note="Trusted: degree specification of backend svd / eigh / qr.",
         design="DESIGN.md §17",
     ),
